@@ -38,6 +38,7 @@ def mk_input(specs, fasta_like=False):
     for spec in specs:
         name, kinds, lens = spec[0], spec[1], spec[2]
         strands = spec[3] if len(spec) > 3 else None
+        offsets = spec[4] if len(spec) > 4 else None     # contig coordinates start at offset + 1 (a contig that is itself a piece of a longer sequence)
         rows = []
         lay = []
         p = 0
@@ -49,7 +50,8 @@ def mk_input(specs, fasta_like=False):
                 if fasta_like:
                     r = Fragment(name, p + 1, p + n, st)
                 else:
-                    r = Fragment(f"{name}.c{i}", 1, n, st)
+                    o = offsets[fi - 1] if offsets else 0
+                    r = Fragment(f"{name}.c{i}", o + 1, o + n, st)
             else:
                 r = mkgap(n, "scaffold" if i % 2 else "contig") if not isinstance(n, tuple) else mkgap(*n)
             rows.append(r)
